@@ -155,7 +155,7 @@ fn programs(f: &Family, cfg: &Cfg) -> Vec<Program> {
             };
             all.iter().map(|b| skeleton_program(it, b)).collect()
         }
-        Kind::Templates => templates::all(),
+        Kind::Templates => vec![Program::default(); templates::all().len()],
     }
 }
 
@@ -360,6 +360,85 @@ fn run_chunk(f: &Family, progs: &[Program], base: usize, cx: &mut Cx) {
     }
 }
 
+fn template_inputs() -> Vec<i32> {
+    vec![i32::MIN, i32::MIN + 1, -9, -8, -7, -3, -2, -1, 0, 1, 2, 3, 4, 5, 6, 7, 8, 9, 10, 65535, 65536, i32::MAX - 1, i32::MAX]
+}
+
+fn run_templates(lo: usize, hi: usize, cx: &mut Cx) {
+    if !cx.case(SUB_SETUP) {
+        return;
+    }
+    let rt = host::runtime();
+    let ts = templates::all();
+    let ins = template_inputs();
+    for i in lo..hi {
+        let t = &ts[i];
+        let li = (i - lo) as u64;
+        if !cx.case((li << 20) | 0xFFFFF) {
+            continue;
+        }
+        let mut pkg = match host::compile(&rt, &t.src) {
+            Ok(p) => p,
+            Err(e) => {
+                cx.violation(
+                    match e {
+                        host::CompileFail::Panic(_) => "compile-panic",
+                        host::CompileFail::Report(_) => "rejected",
+                    },
+                    li << 20,
+                    json!({"family": "templates", "template": t.name, "program": t.src}),
+                    json!("a well-typed program compiles"),
+                    json!(format!("{e:?}")),
+                );
+                continue;
+            }
+        };
+        let f: roto::TypedFunc<roto::NoCtx, fn(i32, i32) -> i32> = match pkg.get_function("f") {
+            Ok(f) => f,
+            Err(e) => {
+                cx.violation("get_function", li << 20, json!({"template": t.name, "program": t.src}), json!("Ok"), json!(e.to_string()));
+                continue;
+            }
+        };
+        cx.states(1);
+        let mut distinct = std::collections::HashSet::new();
+        let mut reported = false;
+        for (ka, a) in ins.iter().enumerate() {
+            for (kb, b) in ins.iter().enumerate() {
+                let Some(want) = (t.expect)(*a, *b) else {
+                    cx.unspecified(1);
+                    continue;
+                };
+                let sub = (li << 20) | (ka * ins.len() + kb) as u64;
+                if !cx.case(sub) {
+                    continue;
+                }
+                let got = f.call(*a, *b);
+                cx.transitions(1);
+                cx.validated(1);
+                distinct.insert(got);
+                if got != want && !reported {
+                    reported = true;
+                    cx.violation(
+                        "mismatch",
+                        sub,
+                        json!({"family": "templates", "template": t.name, "program": t.src, "a": a, "b": b}),
+                        json!(want),
+                        json!(got),
+                    );
+                }
+            }
+        }
+        if distinct.len() > 1 {
+            cx.nontrivial(vcore::util::fnv_str(&t.src));
+        }
+        cx.outcome(vcore::util::mix(vcore::util::fnv_str(&t.name), distinct.len() as u64));
+        if i == lo {
+            cx.sample(json!({"family": "templates", "template": t.name, "program": t.src}));
+        }
+    }
+}
+
 /// prefix only the entry function `f` (helpers keep their names and are
 /// shared by all programs of a package; they are identical for one family)
 fn rename_main(p: &Program, prefix: &str) -> Program {
@@ -386,6 +465,10 @@ impl Check for C01 {
         let chunk = chunk_of(&f);
         let lo = c * chunk;
         let hi = (lo + chunk).min(all.len());
+        if let Kind::Templates = f.kind {
+            run_templates(lo, hi, cx);
+            return;
+        }
         run_chunk(&f, &all[lo..hi], lo, cx);
     }
     fn describe(&self, cfg: &Cfg, unit: usize, sub: u64) -> Value {
@@ -398,6 +481,11 @@ impl Check for C01 {
         }
         let i = c * chunk + (sub >> 20) as usize;
         let k = (sub & 0xFFFFF) as usize;
+        if let Kind::Templates = f.kind {
+            let ts = templates::all();
+            return json!({"family": "templates", "template": ts.get(i).map(|t| t.name.clone()),
+                          "program": ts.get(i).map(|t| t.src.clone()), "input_index": k});
+        }
         let inputs = family_inputs(&f, cfg.tier);
         let (a, b) = inputs.get(k).map(|(a, b)| (a.show(), b.show())).unwrap_or_default();
         json!({"family": f.name, "program": all.get(i).map(print_program), "a": a, "b": b, "index": i})
